@@ -1,7 +1,8 @@
 //! C04 + C05: drives dasp_signal adaptor TREES built dynamically from a textual description.
 //!
 //! Input line:  `<fmt> ; B <tree> ; ... ; <op> ; <op> ...`
-//!   fmt: i16x2 | u8x3 | i32x1 | f64x1 | f32x2   (float samples travel as IEEE bit patterns)
+//!   fmt: <sample type>x<channels>, x1 = a bare sample as frame: i16x2 u8x3 i32x1 f64x1 f32x2 and i24x1 i24x2 u24x1 u24x3
+//!        i48x1 i48x2 u48x1 u48x2 i8x2 u16x1 u32x2 i64x1 u64x1 u64x2 (floats travel as IEEE bit patterns, I24.. as inner values)
 //!   B <tree>                      a base signal (owned for the whole case, no `ref` inside)
 //!   N <k> <tree>                  build, k x (is_exhausted, next, is_exhausted), drop
 //!   U <cap> <extra> <tree>        tree.until_exhausted(): at most cap calls, `extra` calls after the first None
@@ -27,6 +28,7 @@
 //! events: 1 id = Iterator::next on the iterator behind leaf id; 2 id = Signal::next on leaf id /
 //!   gen closure id; 3 id = map/zip_map closure id; 4 id frame = inspect closure id saw frame
 use dasp_frame::Frame;
+use dasp_sample::{I24, I48, U24, U48};
 use dasp_signal::{self as signal, Signal};
 use dasp_verif_harness::*;
 use std::cell::{Cell, RefCell};
@@ -173,7 +175,21 @@ macro_rules! sm_int {
         }
     )*};
 }
-sm_int!(i8 u8 i16 i32);
+sm_int!(i8 u8 i16 i32 u16 u32 i64 u64);
+/// the custom-width types: values travel as their inner representation; the wrapping closures reduce
+/// into the type's own range
+macro_rules! sm_custom {
+    ($($T:ident $Rep:ty, $min:expr, $bits:expr);*) => {$(
+        impl Sm for $T {
+            fn of(v: i128) -> Self { $T::new_unchecked(v as $Rep) }
+            fn to(self) -> i128 { self.inner() as i128 }
+            fn wadd(self, k: i128) -> Self { Self::of((self.to() + k - $min).rem_euclid(1i128 << $bits) + $min) }
+            fn wsub(self, o: Self) -> Self { Self::of((self.to() - o.to() - $min).rem_euclid(1i128 << $bits) + $min) }
+            fn gm(v: i128) -> Self { Self::of(v) }
+        }
+    )*};
+}
+sm_custom!(I24 i32, -(1i128 << 23), 24; U24 i32, 0i128, 24; I48 i64, -(1i128 << 47), 48; U48 i64, 0i128, 48);
 impl Sm for f64 {
     fn of(v: i128) -> Self {
         f64::from_bits(v as u64)
@@ -245,7 +261,7 @@ macro_rules! fx_bare {
         }
     )*};
 }
-fx_bare!(i32 f32 f64);
+fx_bare!(i32 f32 f64 i8 i16 u16 u32 i64 u64 I24 U24 I48 U48);
 
 fn rev_frame<F: Fx>(f: F) -> F {
     let mut v = f.un();
@@ -741,6 +757,20 @@ macro_rules! fmt_mod {
             parse(cx)
         }
     };
+    (@float conv) => {
+        /// the Float-format second source of mul_amp: `map <id> 8 <k> <tree>` = tree.map(to_float_frame)
+        fn parse_float<'t, 'a>(cx: &mut Cx<'t, 'a>) -> Dyn<'a, <Fr as Frame>::Float> {
+            assert_eq!(cx.tk.word(), "map");
+            let id = cx.tk.int();
+            assert_eq!(cx.tk.int(), 8);
+            let _k = cx.tk.int();
+            let s = parse(cx);
+            dy(s.map(move |x: Fr| {
+                log(&[3, id]);
+                x.to_float_frame()
+            }))
+        }
+    };
     (@float none) => {
         fn parse_float<'t, 'a>(_cx: &mut Cx<'t, 'a>) -> Dyn<'a, <Fr as Frame>::Float> {
             panic!("mul_amp between signals is only driven for the float formats")
@@ -759,6 +789,21 @@ fmt_mod!(u8x3, [u8; 3], u8, i8, [i8; 3], f32, [f32; 3], conv, none);
 fmt_mod!(i32x1, i32, i32, i32, i32, f32, f32, same, none);
 fmt_mod!(f64x1, f64, f64, f64, f64, f64, f64, same, same);
 fmt_mod!(f32x2, [f32; 2], f32, f32, [f32; 2], f32, [f32; 2], same, same);
+// every other sample format (Signed / Float companions per impl_sample!)
+fmt_mod!(i24x1, I24, I24, I24, I24, f32, f32, same, conv);
+fmt_mod!(i24x2, [I24; 2], I24, I24, [I24; 2], f32, [f32; 2], same, conv);
+fmt_mod!(u24x1, U24, U24, i32, i32, f32, f32, conv, conv);
+fmt_mod!(u24x3, [U24; 3], U24, i32, [i32; 3], f32, [f32; 3], conv, conv);
+fmt_mod!(i48x1, I48, I48, I48, I48, f64, f64, same, conv);
+fmt_mod!(i48x2, [I48; 2], I48, I48, [I48; 2], f64, [f64; 2], same, conv);
+fmt_mod!(u48x1, U48, U48, i64, i64, f64, f64, conv, conv);
+fmt_mod!(u48x2, [U48; 2], U48, i64, [i64; 2], f64, [f64; 2], conv, conv);
+fmt_mod!(i8x2, [i8; 2], i8, i8, [i8; 2], f32, [f32; 2], same, conv);
+fmt_mod!(u16x1, u16, u16, i16, i16, f32, f32, conv, conv);
+fmt_mod!(u32x2, [u32; 2], u32, i32, [i32; 2], f32, [f32; 2], conv, conv);
+fmt_mod!(i64x1, i64, i64, i64, i64, f64, f64, same, conv);
+fmt_mod!(u64x1, u64, u64, i64, i64, f64, f64, conv, conv);
+fmt_mod!(u64x2, [u64; 2], u64, i64, [i64; 2], f64, [f64; 2], conv, conv);
 
 fn main() {
     serve(|l| {
@@ -771,6 +816,20 @@ fn main() {
             "i32x1" => i32x1::run(&parts[1..], &mut out),
             "f64x1" => f64x1::run(&parts[1..], &mut out),
             "f32x2" => f32x2::run(&parts[1..], &mut out),
+            "i24x1" => i24x1::run(&parts[1..], &mut out),
+            "i24x2" => i24x2::run(&parts[1..], &mut out),
+            "u24x1" => u24x1::run(&parts[1..], &mut out),
+            "u24x3" => u24x3::run(&parts[1..], &mut out),
+            "i48x1" => i48x1::run(&parts[1..], &mut out),
+            "i48x2" => i48x2::run(&parts[1..], &mut out),
+            "u48x1" => u48x1::run(&parts[1..], &mut out),
+            "u48x2" => u48x2::run(&parts[1..], &mut out),
+            "i8x2" => i8x2::run(&parts[1..], &mut out),
+            "u16x1" => u16x1::run(&parts[1..], &mut out),
+            "u32x2" => u32x2::run(&parts[1..], &mut out),
+            "i64x1" => i64x1::run(&parts[1..], &mut out),
+            "u64x1" => u64x1::run(&parts[1..], &mut out),
+            "u64x2" => u64x2::run(&parts[1..], &mut out),
             other => panic!("unknown format {}", other),
         });
         drain();
